@@ -741,6 +741,29 @@ def fam_vec_edges(rng, quick):
     return out
 
 
+def fam_timeline(rng, quick):
+    """C15: more than 32 active documents with few distinct timestamps, ingested out of chronological order, some deleted or
+    superseded; windows whose bounds are timestamps that several documents share; forward, reverse, limited; live, reopened,
+    after a doctor rebuild of the time index."""
+    out = []
+    for k in range(1 if quick else 6):
+        n = 48 if quick else rng.choice([34, 48, 80])
+        stamps = [-5, 0, 7, 7, 100, 1700000000]
+        ops = [{"op": "create"}]
+        for i in range(n):
+            ops.append({"op": "put", "uri": "mv2://tl/%d" % i, "pay": i + 1, "cls": "text", "size": 40, "ts": rng.choice(stamps)})
+            if i == n // 2:
+                ops.append({"op": "commit"})
+        ops += [{"op": "delete", "frame": rng.randrange(n)}, {"op": "update", "frame": rng.randrange(n), "meta": {"title": 1}}, {"op": "commit"}]
+        qs = [{"op": "timeline"}, {"op": "timeline", "reverse": True}, {"op": "timeline", "limit": 5}, {"op": "timeline", "reverse": True, "limit": 7}]
+        for t in (-5, 0, 7, 100):
+            qs += [{"op": "timeline", "since": t}, {"op": "timeline", "until": t}, {"op": "timeline", "since": t, "until": t},
+                   {"op": "timeline", "since": t, "reverse": True, "limit": 3}]
+        ops += qs + [{"op": "close"}, {"op": "open"}] + [dict(q) for q in qs] + [{"op": "close"}, {"op": "doctor", "time": True}, {"op": "open_ro"}] + [dict(q) for q in qs[:8]] + [{"op": "close"}]
+        out.append(ops)
+    return out
+
+
 def fam_known(rng, quick):
     """Deterministic witnesses of the recorded findings (so a run shows them, and shows when they are gone)."""
     grow = [{"op": "create"},
@@ -846,6 +869,19 @@ def fam_cards(rng, quick):
                 ops.append({"op": "cards"})
         ops += [{"op": "cards"}, {"op": "commit"}, {"op": "cards"}, {"op": "close"}, {"op": "open"}, {"op": "cards"}, {"op": "close"}]
         out.append(ops)
+    # deletes and updates still pending (not committed) when the extracting puts arrive; a document long enough to be chunked whose
+    # statements sit beyond the first chunk (the card must not name a frame whose text lacks its value)
+    filler = " ".join("Sentence number %d of the filler has nothing to extract." % i for i in range(40))
+    long_text = filler[:2000] + " My birthday is March 14. " + filler[:1500] + " Dana works at Hooli."
+    ops = [{"op": "create"}, {"op": "put", "uri": "mv2://x0", "pay": 1, "cls": "text", "size": 60, "ts": 1},
+           {"op": "put", "uri": "mv2://x1", "pay": 2, "cls": "text", "size": 60, "ts": 2}, {"op": "commit"},
+           {"op": "delete", "frame": 0}, {"op": "update", "frame": 1, "meta": {"title": 2}},
+           {"op": "put", "uri": "mv2://t0", "pay": 10, "cls": "raw", "text": texts[0], "ts": 3, "triplets": True, "instant": True, "enable_embedding": True},
+           {"op": "cards"}, {"op": "delete", "frame": 2},
+           {"op": "put", "uri": "mv2://t1", "pay": 11, "cls": "raw", "text": texts[1], "ts": 4, "triplets": True, "instant": True},
+           {"op": "put", "uri": "mv2://long", "pay": 12, "cls": "raw", "text": long_text, "ts": 5, "triplets": True},
+           {"op": "cards"}, {"op": "commit"}, {"op": "cards"}, {"op": "close"}, {"op": "open"}, {"op": "cards"}, {"op": "close"}]
+    out.append(ops)
     return out
 
 
@@ -889,7 +925,7 @@ def fam_payload_sizes(rng, quick):
     return out
 
 
-EXTRA_FAMILIES += [fam_capacity_edges, fam_payload_sizes, fam_many_small, fam_tickets, fam_signed_tickets, fam_mesh, fam_legacy, fam_bigfile, fam_sidecars, fam_vec_edges, fam_known, fam_maintenance, fam_cards]
+EXTRA_FAMILIES += [fam_capacity_edges, fam_payload_sizes, fam_many_small, fam_tickets, fam_signed_tickets, fam_mesh, fam_legacy, fam_bigfile, fam_sidecars, fam_vec_edges, fam_timeline, fam_known, fam_maintenance, fam_cards]
 
 DEV_OWNER = {"D26_value_rewritten": "C26", "D01_commit_growth": "C01", "D08_update_chunked_empty": "C08", "D24_pending_ignored": "C24",
              "D24_payload_end_beyond_capacity": "C24"}
